@@ -63,6 +63,13 @@ class Pollardpm1:
               "and 1 < result[1][0] < n)"),
       ("C01,C05", "implies(not result[0], len(result[1]) == 0)"),
       ("C05", "implies(gcd(n - 1, m) < gcd_bound, not result[0])"),
+      # the mechanism the property names: base a = 2^(n-1) mod n, g = gcd(a^m - 1, n); flagged exactly when the gate is
+      # open and g > 1, factored exactly when moreover g < n
+      ("C05", "implies(gcd(n - 1, m) >= gcd_bound, result[0] == "
+              "(gcd(powmod(powmod(2, n - 1, n), m, n) - 1, n) > 1))"),
+      ("C05", "implies(gcd(n - 1, m) >= gcd_bound and 1 < gcd(powmod(powmod(2, n - 1, n), m, n) - 1, n) and "
+              "gcd(powmod(powmod(2, n - 1, n), m, n) - 1, n) < n, "
+              "len(result[1]) == 2 and result[1][0] == gcd(powmod(powmod(2, n - 1, n), m, n) - 1, n))"),
   ]
   total = True
 
